@@ -302,6 +302,24 @@ def rule_eq(rep, d):
                 eq3 = [n_ for n_ in ir.walk_expr(ir.body(fn)) if n_.get("kind") == "CallExpr" and ir.sx(n_)[0] == "call" and ir.show(ir.sx(n_)[1]).split("::")[-1] == "equal" and len(ir.sx(n_)) == 5]
                 sized = any(x[0] == "call" and x[1][0] == "mem" and x[1][2] == "size" for n_ in ir.walk_expr(ir.body(fn)) if n_.get("kind") in ("BinaryOperator", "CXXOperatorCallExpr")
                             for x in ir.subterms(ir.sx(n_)) if isinstance(x, tuple))
+                # the same for a hand loop over one operand's size(): both sizes must be compared somewhere (size() of lhs against size() of rhs)
+                loops_ = [n_ for n_ in ir.walk_expr(ir.body(fn)) if n_.get("kind") in ("ForStmt", "WhileStmt", "DoStmt", "CXXForRangeStmt")]
+                both_sizes = False
+                for n_ in ir.walk_expr(ir.body(fn)):
+                    if n_.get("kind") in ("BinaryOperator", "CXXOperatorCallExpr"):
+                        t_ = ir.sx(n_)
+                        if t_[0] == "bin" and t_[1] in ("==", "!=", "<", ">", "<=", ">="):
+                            sides = []
+                            for side in (t_[2], t_[3]):
+                                sides.append({x[1][1] for x in ir.subterms(side) if isinstance(x, tuple) and x[0] == "call" and x[1][0] == "mem" and x[1][2] == "size" and len(x) == 2})
+                            flat = [ir.show(y) for s_ in sides for y in s_]
+                            if sides[0] and sides[1] and sides[0] != sides[1]:
+                                both_sizes = True
+                if loops_ and not eq3 and not both_sizes and fn["name"] == "operator==":
+                    rep.violates("C11.eq", label, "compares both storages", where=d.where(loops_[0]),
+                                 detail="the elements are compared in a loop over one operand's length and the two sizes are never compared: a sequence equals every longer one "
+                                        "that starts with it (and a longer left operand is read past the end of the right one)")
+                    continue
                 if eq3 and not sized:
                     rep.violates("C11.eq", label, "compares both storages", where=d.where(eq3[0]),
                                  detail="std::equal(first1, last1, first2) ignores the length of the second sequence and the sizes are not compared: a longer/shorter "
